@@ -70,7 +70,14 @@ def one_query(ctx, rng, built, s, witness_base):
     def make():
         return q.matcher(subs, cx)
     w = dict(witness_base, query=repr(q), scored=scored, needs_current=needs_current, level=level)
-    ok, ref = ctx.guard("c11.reference", w, monitors.reference_list, make, scored)
+    # A negation has no posting value/spans of its own (InverseMatcher delegates value()/spans() to the
+    # matcher it negates, which sits on some other document): those reads are not compared there.
+    ok0, m_probe = ctx.guard("c11.reference", w, make)
+    if not ok0:
+        ctx.case(("make-failed", model.qshape(q)), False)
+        return
+    want_values = "InverseMatcher" not in monitors.mclasses(m_probe)
+    ok, ref = ctx.guard("c11.reference", w, monitors.reference_list, make, scored, want_values)
     if not ok:
         ctx.case(("ref-failed", model.qshape(q)), False)
         return
@@ -122,7 +129,7 @@ def one_query(ctx, rng, built, s, witness_base):
             if in_harness:
                 raise
             last = cur.trace[-1].split("(")[0] if cur and cur.trace else "fresh"
-            ctx.fail("c11.protocol", "exc:%s@%s:after-%s" % (type(e).__name__, site, last),
+            ctx.fail("c11.protocol", "%s:exc:%s@%s:after-%s" % (cur._cls() if cur else "?", type(e).__name__, site, last),
                      dict(w, program=[list(o) for o in prog], trace=cur.trace if cur else None, tree=tree),
                      "".join(traceback.format_exception(type(e), e, e.__traceback__))[-1800:])
         ctx.case((tree, tuple(o[0] for o in prog), scored, needs_current, level), len(ref) >= 2,
